@@ -35,6 +35,10 @@ ADDR = {"a": "127.0.0.1", "b": "127.0.0.2", "c": "127.0.0.3"}
 # ---------------------------------------------------------------- environment
 class Net:
     log = []
+    # peers that do not listen (the L1 side need not open its clock port): a datagram sent there is answered by ICMP
+    # port-unreachable, which Linux reports - on a CONNECTED UDP socket only - as ConnectionRefusedError at the next
+    # send()/recv(); an unconnected socket (sendto) never sees it.  Decided per history from its seed.
+    unreachable = set()
 
 class FakeSocket:
     def __init__(self, *a):
@@ -47,12 +51,17 @@ class FakeSocket:
     def getsockname(self): return self.bound
     def sendto(self, data, remote):
         Net.log.append((self.bound[1], remote[0], remote[1], bytes(data)))
+        if getattr(self, "peer", None) is not None and (remote[0], remote[1]) in Net.unreachable:
+            self.icmp_error = True
     # a connected UDP socket: send() goes to the peer, and the kernel hands over only datagrams that come FROM the peer
     def connect(self, remote):
         self.peer = (remote[0], remote[1])
     def send(self, data):
         if getattr(self, "peer", None) is None:
             raise OSError(89, "Destination address required")
+        if getattr(self, "icmp_error", False):
+            self.icmp_error = False
+            raise ConnectionRefusedError(111, "Connection refused")
         self.sendto(data, self.peer)
     def deliver(self, data, remote):
         """a datagram arrives from `remote`: queued (True) unless the socket is connected to somebody else"""
@@ -288,6 +297,8 @@ def build(extra):
     defaults, the shared clock generator, FakePM, BTS and MS, the --trx definitions, the burst forwarder.  Environment
     replaced: signal handlers, the copyright banner and the logging set-up."""
     argv = ["fake_trx.py", "-b", BIND, "-R", ADDR["a"], "-r", ADDR["b"], "-P", "5700", "-p", "6700"]
+    # in every second history the MS-side L1 has no clock listener (CLCK is optional for the L1: trxcon does not open it)
+    Net.unreachable = {(ADDR["b"], 6800)} if Draw.seed % 2 == 1 else set()
     for (addr, port, idx) in extra:
         argv += ["--trx", "%s:%d/%d" % (ADDR[addr], port, idx)]
     # the rarely used real-time option of the clock thread (an option the model does not know: it must make no difference)
